@@ -414,7 +414,7 @@ package storage
 // (work in progress: the one-level functional contract of insertLeaf is parked; lines start with //@ so that govc ignores them)
 //@ func (b *BTree) insertLeaf(parent *btreeNode, curNode *btreeNode, key uint32, nextLSN uint64, value []byte) error
 //@   props C01 C11 C02 C13 C14
-//@   assumedead btree.go:172 A-ASC.rightmost: a leaf that splits below a parent is the parent's right-most child, so the separator is appended
+//@   assumedead func+49 A-ASC.rightmost: a leaf that splits below a parent is the parent's right-most child, so the separator is appended
 //@   requires btOK(b) && fsLocked(fsOf(b)) && curNode != nil && leafOK(curNode)
 //@   requires parent != nil ==> intOK(parent) && parent != curNode && cnt(parent) >= 1
 //@   assume[A-ASC.leaf] keyAbsent(curNode, key) ==> ascLeaf(parent, curNode, key)
